@@ -132,6 +132,19 @@ def _wait_variant(proc) -> str:
     return 'ok'
 
 
+def _drop_dumper_cache() -> None:
+    """Every restart builds a TimePointDumper (config.process_cycle_point_tz)
+    whose lru_cache'd methods keep it - and its ~200 kB of compiled regexes -
+    alive for ever: tens of thousands of restarts per search worker would
+    need gigabytes. Module-level cache hygiene, no effect on behaviour."""
+    try:
+        from metomi.isodatetime.dumpers import TimePointDumper
+        TimePointDumper.get_time_zone.cache_clear()
+        TimePointDumper._get_expression_and_properties.cache_clear()
+    except Exception:       # pragma: no cover
+        pass
+
+
 START_ONLY_OPTIONS = ('stopcp', 'holdcp', 'startcp', 'starttask', 'fcp',
                       'icp', 'paused_start')
 
@@ -207,6 +220,7 @@ class StopProfile(OpProfile):
             if 'paused_start' in over:
                 over['paused_start'] = False
             w.restart(**over)
+            _drop_dumper_cache()
             return
         if ev[0] == 'stop':
             from cylc.flow.workflow_status import StopMode
